@@ -23,6 +23,36 @@ var commonSched = []string{
 }
 
 var props = map[string]propSpec{
+	"C05": {Sched: true, Level: "model_checking",
+		Rule:        "every schedule of each closed harness (writers / streaming writer / pinger+reader / closer on one Conn over vpipe, both roles, compression off/on) within the stated deviation bounds; an execution is one evaluation; states = distinct happens-before trace keys; an outcome is distinct by (harness, order of messages on the wire, per-call error pattern, control frames) and non-trivial when at least two tasks' operations interleaved",
+		Assumptions: commonSched},
+	"C11": {Seq: true, Level: "model_checking",
+		Rule: "part grammar: every request of the cross product method{GET,POST,HEAD,get} x proto{1.0,1.1,2.0} x 9 Connection values x 9 Upgrade values (exact, other case, in a list, on a second header line, prefixed/suffixed look-alikes, other token, empty, absent) x version{13,8,absent,'13, 8'} x 8 key variants (2 valid, absent, two lines, 15/17 bytes, non-base64, empty) x 5 offered x 4 supported sub-protocol lists (622080 requests) is sent to Accept with a recording ResponseWriter+Hijacker and compared with the reference predicate of refws/handshake: upgraded <=> predicate; then 101, Sec-WebSocket-Accept = independent SHA-1 value, sub-protocol = first server-preferred offered one; else status 4xx/5xx, Hijack not called, nil connection and non-nil error. Part buffered: 3 client frame streams x every split k=0..min(len,64) bytes already buffered in the hijacked bufio.Reader x reader size{4096,128} x consumed request prefix{0,50} x rest delivered{at once, byte-wise}; every message must be read back intact. A case is distinct by its grammar index; states = distinct (failed-clause set | sub-protocol outcome) of the model, one transition and one trace per request replayed against the implementation; outcome = status + failed-clause set (refusals) or accept key + sub-protocol kind (upgrades)",
+		Assumptions: append([]string{
+			"requests are handed to Accept as *http.Request values (header lines as net/http would store them: canonical keys, values without surrounding white space); space-padded keys/versions, where the wire value and the stored value differ, are not in the direct-call product",
+			"the property text does not say whether sub-protocol names compare case-sensitively: both readings (and both spellings under the case-insensitive one) are admitted, but response header and Conn.Subprotocol() must agree",
+			"the hijacked connection is a scripted net.Conn that never blocks; a hang-guard timeout would be reported as an engine error",
+		}, commonSeq...)},
+	"C12": {Seq: true, Level: "model_checking",
+		Rule: "every (Host, Origin, OriginPatterns, InsecureSkipVerify) combination of: Host{example.com, example.com:8080, EXAMPLE.COM} x origins generated as scheme{https,http,HTTP} :// userinfo{none,user,example.com,example.com:8080,evil.org}@ host{equal, mixed case, different, prefix, suffix look-alike, host-as-prefix, sub-domain, super-domain, trailing dot} port{none,80,8080} tail{none,/example.com,?example.com,#example.com,/@example.com,#@example.com} plus 8 special values (absent, null, schemeless, empty, scheme only, empty authority) x 9 pattern sets (none, exact, *.example.com, *example.com, ?vil.org, EVIL.ORG, *, second of two, malformed '[') x InsecureSkipVerify{false,true} (131652 requests, otherwise valid upgrade requests). Oracle refws/handshake.OriginCase.Decide with the origin's host known by construction (no net/url) and an independent glob matcher: skip-verify, no Origin, same host[:port] or pattern-matched => must be upgraded; host name differs from the request host name and no pattern matches host or host:port => 403, no Hijack, nil connection; hostless origins, port-only differences, trailing-dot spellings and patterns that match only with or only without the port => unconstrained (recorded, not judged). States = distinct (verdict, rule, host kind, userinfo kind, tail kind, pattern kind) of the model; one transition and one trace per request",
+		Assumptions: append([]string{
+			"the host an origin names is the one it was generated from; net/url is not part of the oracle",
+			"pattern syntax is limited to literal characters, '*' and '?' (plus one malformed pattern that matches nothing)",
+		}, commonSeq...)},
+	"C13": {Seq: true, Level: "model_checking",
+		Rule: "grid: every element of the cross product status {101,200,400} x Connection (6 values incl. absent) x Upgrade (6) x Sec-WebSocket-Accept {correct, for another key, absent} x response subprotocol (6: none, requested, other letter case, unrequested, prefix and extension of a requested one) x requested list (3) x response extension header (16 variants) x client compression mode (3) is replayed through websocket.Dial against a scripted RoundTripper; the model is the independent response-validity predicate refws/hsclient.Judge: a state is a distinct clause vector (status, Connection, Upgrade, accept, subprotocol, extensions[+reason]), a transition is one model evaluation input -> verdict, a trace is one case replayed against the implementation (conn != nil iff the predicate holds; clauses on which the property text is silent are not compared). request: every DialOptions combination (4 schemes x 3 subprotocol lists x 16 caller-header subsets x 2 Host overrides x 3 modes) with the recorded request inspected. key: 27 sequences of 8 dials with a scripted source through VerifDial, with crypto/rand.Reader swapped, and with the real crypto/rand. A case is distinct by its full parameter tuple; outcome hash = clause vector, accepted/rejected, connection parameters",
+		Assumptions: append([]string{
+			"the HTTP round trip is replaced by a scripted http.RoundTripper whose response Body is an in-memory io.ReadWriteCloser (the technique of the repository's own dial_test.go); net/http's client logic above the transport is the real one",
+			"letter-case-only subprotocol matches and responses that merely omit a requested server_no_context_takeover are left unconstrained (the property text is silent); malformed values of known permessage-deflate parameters are reported under their own classes C13/accepted-malformed-extension-param/*",
+			"key freshness is checked as: the 16 key bytes are among the bytes consumed from the randomness source during that attempt, and no key repeats within a sequence",
+		}, commonSeq...)},
+	"C14": {Seq: true, Level: "model_checking",
+		Rule: "server: every list of up to 2 (quick) / 3 (thorough) offers over 22 productions of the RFC 7692 offer grammar (flags, window-bits with/without values in and out of 8..15, unknown, duplicated and valued-flag parameters, foreign extensions) x 3 server modes x {one header line, one line per offer} through websocket.Accept with a recording hijackable ResponseWriter; the model refws/hsclient classifies each offer (honourable / malformed kind / unhonourable / foreign) and decides which responses a client may receive; a state is a grammar production or a distinct classification vector of a list, a transition one model evaluation, a trace one case replayed against the implementation. client: 16 response variants x 3 client modes through websocket.Dial. After every successful handshake 3 messages of 2000 bytes (2 and 3 repeat content of 1) travel in each direction between the library connection and the reference peer refws/pmd, which applies exactly the parameters of the response header (keeps its context unless forbidden, drops its history whenever the library side promised no takeover). Outcome hash = mode, classification vector, response header, per-message result",
+		Assumptions: append([]string{
+			"the reference peer does not shrink its LZ77 window for *_max_window_bits (compress/flate has a fixed 32 KiB window); the library never agrees to a window below 15 bits for itself, and a receiver with a larger window decodes any smaller one",
+			"transports are in-memory: library writes never block, reads return the scripted bytes; 5 s contexts are hang guards only",
+			"parameter names are compared case-sensitively and quoted-string parameter values are outside the alphabet",
+		}, commonSeq...)},
 	"C17": {Seq: true, Level: "exploration",
 		Rule:        "every (length 0..4200, alignment 0..63, key) triple, plus every 2-split (len<=512) and 3-split (len<=96); a case is distinct by (impl,len,align,key[,split]) and non-trivial when len>0; outcome hash = hash of masked bytes and returned key",
 		Assumptions: []string{"arm64 assembly cannot be executed in this sandbox; only the Go and amd64 implementations are checked", "buffer contents are pseudo-random from VERIF_SEED; XOR is content independent"}},
